@@ -1,13 +1,26 @@
 ---------------------------- MODULE TenancyConsts ---------------------------
-(* Names for the Tenancy configurations: index names that are prefixes of each other (a, ab, b), one
-   alias name (al) that the wildcard a* also matches, and the index expressions that are queried. *)
+(* Names for the Tenancy configurations: index names that extend each other (a, ab, abc) plus b, one alias name
+   (al) that the wildcard a* also matches, and the index expressions that are queried / deleted: direct names, the
+   alias, a trailing wildcard a-star, an inner wildcard a*b - it must take ab but not abc -, a leading wildcard
+   star-b - ab and b, not abc -, everything, and a list with a wildcard term. *)
+Orgs1 == {0}
 Orgs2 == {0, 1}
 Orgs3 == {0, 1, 2}
-IndexNames == {"a", "ab", "b"}
-IndexNamesPrefix == {"a", "ab"}
+IndexNames == {"a", "ab", "abc", "b"}
+IndexNamesPrefix == {"a", "ab", "abc"}
+IndexNamesTwo == {"ab", "abc"}
+IndexNamesOne == {"ab"}
+ExprsOne == {"ab", "abc", "*", "a*b"}
+DelExprsOne == {"ab", "a*b"}
 AliasNames == {"al"}
-ExprsAll == {"a", "ab", "b", "al", "a*", "*", "a,b"}
-Terms(e) == IF e = "a,b" THEN {"a", "b"} ELSE {e}
-Wild(t) == t = "a*"
-Match(t, n) == t = "a*" /\ n \in {"a", "ab", "al"}
+NoAliases == {}
+ExprsAll == {"a", "ab", "abc", "b", "al", "a*", "*", "a*b", "*b", "b,a*b"}
+DelExprsAll == {"a", "ab", "abc", "b", "a*b", "*b"}
+DelExprsPrefix == {"a", "ab", "abc", "a*b"}
+DelExprsTwo == {"ab", "abc", "a*b"}
+Terms(e) == IF e = "b,a*b" THEN {"b", "a*b"} ELSE {e}
+Wild(t) == t \in {"a*", "a*b", "*b"}
+Match(t, n) == \/ t = "a*" /\ n \in {"a", "ab", "abc", "al"}
+               \/ t = "a*b" /\ n = "ab"
+               \/ t = "*b" /\ n \in {"ab", "b"}
 =============================================================================
